@@ -159,6 +159,40 @@ def check_compiled(ctx, label, src, scope, work, thorough, nt, start_year=2000, 
                                                 "removed_policies": len(tz["removed_policies"])}
 
 
+def probe_path_a(ctx, key, scope, text, work, sy, uy):
+    """One small source through tzcompiler.py -> generated C++ tables -> sweep driver, against zic. Zones on which the oracle
+    readers disagree are skipped."""
+    d = os.path.join(work, "probe_" + "".join(c for c in key if c.isalnum())[:30])
+    odir = os.path.join(d, "zic")
+    ok, err = tzoracle.zic_compile(text, odir)
+    if not ok:
+        raise vt.HarnessError("zic rejected a probe / replayed source")
+    r = compilelib.compile_source(d, "probe", text, scope, "arduino", db_namespace="probe", start_year=sy, until_year=uy)
+    if r["rc"] != 0:
+        return
+    tz = compilelib.load_tzdb_json(r["outdir"])
+    trunc = c03lib.truncated_zones(tz) if tz else set()
+    try:
+        exe = compilelib.build_with_generated("C03", "sweep_probe_" + "".join(c for c in key if c.isalnum())[:20], "sweep.cpp",
+                                              x_out=r["outdir"] if scope == "extended" else None, x_ns="probe",
+                                              b_out=r["outdir"] if scope == "basic" else None, b_ns="probe")
+    except compilelib.GeneratedDoesNotCompile as e:
+        ctx.violation(key, {"source": text, "scope": scope, "start_year": sy, "until_year": uy}, "generated tables do not compile: %s" % str(e)[:500])
+        return
+    db = "x" if scope == "extended" else "b"
+    for zi, z in enumerate(sweeplib.list_zones(exe, db)):
+        if z in trunc:
+            continue
+        res = zonecheck.check_zone(dict(exe=exe, db=db, zi=zi, zone=z, odir=odir, t0=tzoracle.t_of(sy), t1=tzoracle.t_of(uy), stride=300,
+                                        radius=120, nprobe=10, seed=ctx.seed))
+        if res["harness"]:
+            continue
+        ctx.evaluations += res["evaluations"]
+        if res["diffs"]:
+            ctx.violation(key, {"source": text, "scope": scope, "start_year": sy, "until_year": uy, "diff": res["diffs"][0]},
+                          "source through the generated C++ tables (%s), zone %s: %s" % (scope, z, json.dumps(res["diffs"][0], default=str)[:400]))
+
+
 def run(ctx):
     ctx.assumptions = [
         "oracle: glibc zic on the same source text (zdump + zoneinfo readers, cross-checked)",
@@ -181,7 +215,16 @@ def run(ctx):
                     yrs = (1995, 2040) if label.endswith("y") else (2000, 2050)
                     check_compiled(ctx, label, src, r["scope"], work, False, nt, start_year=yrs[0], until_year=yrs[1])
         if "source" in r:
-            v = check_generated_source(ctx, r["source"], r.get("scope", "extended"), r.get("start_year", 2000), r.get("until_year", 2050), work, "replay")
+            # (a zone on which the two oracle readers disagree is skipped here as in the search: the replay then only
+            # re-examines the compiler's own behaviour - exceptions, accounting, counters)
+            v = check_generated_source(ctx, r["source"], r.get("scope", "extended"), r.get("start_year", 2000), r.get("until_year", 2050), work, "replay",
+                                       {"zic_rejected": 0, "zones_compared": 0})
+            if v:
+                ctx.violation(v["key"], {"source": v["source"], "scope": v["scope"], "start_year": v["sy"], "until_year": v["uy"], "detail": v["detail"]},
+                              "replayed source (%s): %s" % (v["scope"], v["msg"]))
+            else:
+                probe_path_a(ctx, "replay-path-A:" + r.get("scope", "extended"), r.get("scope", "extended"), r["source"], work,
+                             r.get("start_year", 2000), r.get("until_year", 2050))
         ctx.evaluations = 1
         return
     for label, src, stats in corpora(ctx, work):
@@ -191,25 +234,9 @@ def run(ctx):
             check_compiled(ctx, label, src, scope, work, thorough, nt)
         if thorough and label == "real2025b":
             check_compiled(ctx, label + "y", src, "extended", work, thorough, nt, start_year=1995, until_year=2040)
-    # ---- fixed probes for the listed known findings (so that each is re-examined on every run) ----
+    # ---- fixed probes (path A) for earlier findings, re-examined on every run ----
     for key, scope, text in KNOWN_PROBES:
-        d = os.path.join(work, "probe_" + "".join(c for c in key if c.isalnum())[:30])
-        odir = os.path.join(d, "zic")
-        ok, err = tzoracle.zic_compile(text, odir)
-        if not ok:
-            raise vt.HarnessError("zic rejected a known-finding probe")
-        r = compilelib.compile_source(d, "probe", text, scope, "arduino", db_namespace="probe")
-        if r["rc"] != 0:
-            continue
-        exe = compilelib.build_with_generated("C03", "sweep_probe_" + key[:12].replace(":", "_"), "sweep.cpp", x_out=r["outdir"] if scope == "extended" else None,
-                                              x_ns="probe", b_out=r["outdir"] if scope == "basic" else None, b_ns="probe")
-        db = "x" if scope == "extended" else "b"
-        for zi, z in enumerate(sweeplib.list_zones(exe, db)):
-            res = zonecheck.check_zone(dict(exe=exe, db=db, zi=zi, zone=z, odir=odir, t0=tzoracle.t_of(2000), t1=tzoracle.t_of(2050), stride=300,
-                                            radius=120, nprobe=10, seed=ctx.seed))
-            ctx.evaluations += res["evaluations"]
-            if res["diffs"]:
-                ctx.violation(key, {"source": text, "scope": scope, "diff": res["diffs"][0]}, "probe for %s still fails: %s" % (key, json.dumps(res["diffs"][0], default=str)[:400]))
+        probe_path_a(ctx, key, scope, text, work, 2000, 2050)
     # ---- generated sources ----
     gen_stats = {"n": 0, "features": {}, "zic_rejected": 0, "compiler_rejected": 0, "zones_compared": 0}
     fails = []
